@@ -1,6 +1,8 @@
 mod common;
+mod c01;
 mod c04;
 mod c05;
+mod c11;
 mod c12;
 mod c15;
 mod c16;
@@ -19,6 +21,7 @@ fn main() {
         "replay" => {
             let (prop, cases, verd) = (&args[2], &args[3], &args[4]);
             match prop.as_str() {
+                "C01" => c01::replay(cases, verd),
                 "C04" => c04::replay(cases, verd),
                 "C05" => c05::replay(cases, verd),
                 "C12" => c12::replay(cases, verd),
@@ -37,8 +40,10 @@ fn main() {
             let n: usize = args[4].parse().unwrap();
             let out = &args[5];
             match sub.as_str() {
+                "C01" => c01::record(seed, n, out),
                 "C04" => c04::record(seed, n, out, args.get(6).and_then(|s| s.parse().ok()).unwrap_or(300)),
                 "C05" => c05::record(seed, n, out, args.get(6).and_then(|s| s.parse().ok()).unwrap_or(12)),
+                "C11" => c11::record(&args[6], seed, n, out),
                 "C12" => c12::record(seed, n, out, args.get(6).and_then(|s| s.parse().ok()).unwrap_or(16)),
                 "C15" => c15::record(seed, n, out),
                 "C18" => c18::record(&args[6], seed, n, out),
